@@ -32,6 +32,7 @@ type HarnessSpec struct {
 	MaxSteps int            `json:"max_steps,omitempty"`
 	TierOnly string         `json:"tier_only,omitempty"`
 	BudgetS  int            `json:"budget_s,omitempty"`
+	NoValidate bool         `json:"no_validate,omitempty"`
 	SymAddr  bool           `json:"sym_addr,omitempty"`
 	NoMapOrders bool        `json:"no_map_orders,omitempty"`
 	Note     string         `json:"note,omitempty"`
